@@ -235,7 +235,14 @@ def c03(out, a):
                     P2 = np.asarray(m["um"].gradient([Fc, svc], out=np.full_like(P1, 7.0))[0], dtype=float)
             except (TypeError, ValueError):
                 pass
-            out.write({"id": rid, "kind": "noalias", "nt": True, "before": before, "after": after, "fresh": fhex(P1), "reused": fhex(P2)})
+            A2 = A1
+            try:
+                if "out" in inspect.signature(m["um"].hessian).parameters:
+                    A2 = np.asarray(m["um"].hessian([Fc, svc], out=np.full_like(A1, 7.0))[0], dtype=float)
+            except (TypeError, ValueError, NameError):
+                pass
+            out.write({"id": rid, "kind": "noalias", "nt": True, "before": before, "after": after, "fresh": fhex(P1) + fhex(A1),
+                       "reused": fhex(P2) + fhex(A2)})
     kinematics(out, F, rng)
     # mixed (u, p, J) formulations: every returned block is the mixed second derivative (None = 0)
     p0 = rng.randint(-2, 3, size=(1, n, 1)) / 8.0
